@@ -522,8 +522,9 @@ def coverage(S):
 # ------------------------------------------------------------------------------------------
 
 
-class ReplayTimeout(Exception):
-    pass
+class ReplayTimeout(BaseException):
+    """raised from SIGALRM inside a native replay; a BaseException so that `except Exception` / suppress(Exception)
+    inside a (possibly non-terminating, mutated) loop cannot swallow it"""
 
 
 def limited(fn, seconds=1.5):
@@ -538,7 +539,7 @@ def limited(fn, seconds=1.5):
             old = signal.signal(signal.SIGALRM, on_alarm)
         except ValueError:  # not in the main thread
             return fn(inputs, ob)
-        signal.setitimer(signal.ITIMER_REAL, seconds)
+        signal.setitimer(signal.ITIMER_REAL, seconds, 0.25)
         try:
             return fn(inputs, ob)
         except ReplayTimeout:
@@ -630,6 +631,94 @@ def judge_pool(pool, detail):
     return problems
 
 
+def _pool_script(max_idle, ops):
+    """Drive a real WorkerPool through its own methods only (spawning replaced by fake transports, the clock patched):
+    ops = ("B", k) borrow for command k / ("R",) return the oldest held worker / ("E",) let every idle worker expire and
+    reap.  Returns a problem description or ''."""
+    from unittest import mock
+
+    clock = {"t": 1000.0}
+    with mock.patch.object(pl, "SubprocessTransport", lambda args, **kw: FakeTransport(list(args))), mock.patch.object(pl.time, "monotonic", lambda: clock["t"]):
+        pool = pl.WorkerPool(max_idle=max_idle, idle_timeout=10.0)
+        pool._stop_event.set()
+        held = []
+        try:
+            for i, op in enumerate(ops):
+                clock["t"] += 0.5
+                if op[0] == "B":
+                    held.append(pool._borrow((f"k{op[1]}",)))
+                elif op[0] == "R":
+                    if held:
+                        pool._return_worker(held.pop(0), False)
+                else:
+                    clock["t"] += 100.0
+                    pool._reap_expired()
+                probs = judge_pool(pool, "")
+                if any(t is h for t in idle_list(pool) for h in held):
+                    probs.append("a borrowed worker is idle at the same time")
+                if probs:
+                    return f"max_idle={max_idle} after {list(ops[: i + 1])}: " + "; ".join(probs)
+        finally:
+            safe_close(pool)
+    return ""
+
+
+def _pool_script_limited(max_idle, ops, seconds=1.5):
+    """_pool_script under a wall-clock limit: a changed loop may not terminate (termination is not part of the property)."""
+    import signal
+
+    def on_alarm(signum, frame):
+        raise ReplayTimeout()
+
+    try:
+        old = signal.signal(signal.SIGALRM, on_alarm)
+    except ValueError:  # not in the main thread
+        return _pool_script(max_idle, ops)
+    signal.setitimer(signal.ITIMER_REAL, seconds, 0.25)
+    try:
+        return _pool_script(max_idle, ops)
+    except ReplayTimeout:
+        raise SearchGaveUp() from None  # a loop that does not end: stop the whole search instead of timing out 2000 times
+    finally:
+        signal.setitimer(signal.ITIMER_REAL, 0)
+        signal.signal(signal.SIGALRM, old)
+
+
+class SearchGaveUp(Exception):
+    pass
+
+
+def search_pool(ob, seed=0):
+    try:
+        return _search_pool(ob, seed)
+    except SearchGaveUp:
+        return None
+
+
+def _search_pool(ob, seed=0):
+    """Bounded native search used when a pool unit leaves the engine's reach or loses its proof: guided scripts (fill one
+    idle worker per command, expire them all in one sweep, then borrow max_idle+1 at once and return them all) and
+    2000 seeded random scripts of 14 operations over 3 commands."""
+    import random
+
+    for m in (1, 2, 3):
+        for cmds in (1, 2, 3):
+            fill = [("B", k) for k in range(cmds)] + [("R",)] * cmds
+            burst = [("B", 0)] * (m + 1) + [("R",)] * (m + 1)
+            for script in (fill + [("E",)] + burst, fill + burst + [("E",)] + burst, fill + [("E",)] + fill + [("E",)] + burst):
+                p = _pool_script_limited(m, script)
+                if p:
+                    return {"max_idle": m, "script": [list(o) for o in script]}, ReplayResult(True, p)
+    rnd = random.Random(seed)
+    for _ in range(2000):
+        m = rnd.choice((0, 1, 2, 3))
+        script = [rnd.choice([("B", 0), ("B", 1), ("B", 2), ("R",), ("R",), ("E",)]) for _ in range(14)]
+        p = _pool_script_limited(m, script)
+        if p:
+            return {"max_idle": m, "script": [list(o) for o in script]}, ReplayResult(True, p)
+    return None
+
+
 def replay_borrow(inputs, ob):
     pool, workers = build_pool(inputs)
     try:
@@ -672,7 +761,7 @@ def replay_borrow(inputs, ob):
         safe_close(pool)
 
 
-@unit("C32.O2 _borrow", targets=["vgi_rpc/pool.py::WorkerPool._borrow"], replay=limited(replay_borrow), min_obligations=20)
+@unit("C32.O2 _borrow", targets=["vgi_rpc/pool.py::WorkerPool._borrow"], search=search_pool, replay=limited(replay_borrow), min_obligations=20)
 def borrow(S):
     M = Model(S, 1)
     v0 = M.v0
@@ -771,7 +860,7 @@ def replay_evict(inputs, ob):
         safe_close(pool)
 
 
-@unit("C32.O4 _evict_oldest_locked", targets=["vgi_rpc/pool.py::WorkerPool._evict_oldest_locked"], replay=limited(replay_evict), min_obligations=10)
+@unit("C32.O4 _evict_oldest_locked", targets=["vgi_rpc/pool.py::WorkerPool._evict_oldest_locked"], search=search_pool, replay=limited(replay_evict), min_obligations=10)
 def evict(S):
     M = Model(S, 1)
     v0 = M.v0
@@ -856,7 +945,7 @@ def replay_return(inputs, ob):
         safe_close(pool)
 
 
-@unit("C32.O3 _return_worker", targets=["vgi_rpc/pool.py::WorkerPool._return_worker"], replay=limited(replay_return), min_obligations=30)
+@unit("C32.O3 _return_worker", targets=["vgi_rpc/pool.py::WorkerPool._return_worker"], search=search_pool, replay=limited(replay_return), min_obligations=30)
 def return_worker(S):
     # proc.args a sequence (key = tuple of its strs) is explored on the keep path only; a str on all paths
     variant = S.choose(3, "args=str,pool open / args=str,pool closed / args=sequence,keep path")
@@ -1103,7 +1192,7 @@ def replay_close(inputs, ob):
         pool._closed = True
 
 
-@unit("C32.O6 close", targets=["vgi_rpc/pool.py::WorkerPool.close"], replay=limited(replay_close), min_obligations=10)
+@unit("C32.O6 close", targets=["vgi_rpc/pool.py::WorkerPool.close"], search=search_pool, replay=limited(replay_close), min_obligations=10)
 def pool_close(S):
     import atexit
 
@@ -1195,7 +1284,7 @@ def replay_reap(inputs, ob):
         safe_close(pool)
 
 
-@unit("C32.O5 _reap_expired", targets=["vgi_rpc/pool.py::WorkerPool._reap_expired"], replay=limited(replay_reap), min_obligations=20)
+@unit("C32.O5 _reap_expired", targets=["vgi_rpc/pool.py::WorkerPool._reap_expired"], search=search_pool, replay=limited(replay_reap), min_obligations=20)
 def reap(S):
     M = Model(S, 1)
     v0 = M.v0
@@ -1382,3 +1471,92 @@ def unary_boundary(S):
     if mode == "batch":
         S.oblige("O10.response_region_released", "released" in names, kind="trace")
     S.canary("O10.canary.never_raises", SBool(z3.BoolVal(not out.raised)))
+
+
+# ------------------------------------------------------------------------------------------
+# O11  the stream caller keeps _PooledTransport's two flags truthful for close() (O7): once a stream request is on the
+# wire the borrow is "stream opened", and until this call has a session of its own no earlier session vouches for it -
+# whatever interrupts the call afterwards (a header read failing on the client side included).
+# ------------------------------------------------------------------------------------------
+
+import vgi_rpc.rpc._client as _client  # noqa: E402
+
+
+def replay_second_stream(inputs, ob):
+    """Real pool, real subprocess worker: first stream consumed and closed cleanly, second (header + log) stream
+    interrupted by a raising on_log; the worker must not be idle afterwards."""
+    import sys
+    from pathlib import Path
+
+    try:
+        import tests
+        from tests._fixture_service import RpcFixtureService
+    except Exception as e:  # the scratch copy used by selftest has no tests package
+        return ReplayResult(False, f"fixture service unavailable: {e}")
+    from vgi_rpc import WorkerPool
+
+    cmd = [sys.executable, str(Path(tests.__file__).parent / "serve_fixture_pipe.py")]
+    armed = {"on": False}
+
+    def on_log(msg):
+        if armed["on"]:
+            raise ClientSideError("client callback refuses")
+
+    with WorkerPool(max_idle=2) as pool:
+        try:
+            with pool.connect(RpcFixtureService, cmd, on_log=on_log) as svc:
+                list(svc.generate(count=2))
+                armed["on"] = True
+                svc.generate_with_header_and_log(count=2)
+        except ClientSideError:
+            pass
+        idle = pool.metrics.idle
+    return ReplayResult(idle != 0, f"first stream closed cleanly, second stream interrupted in its header read: idle workers afterwards = {idle}")
+
+
+@unit(
+    "C32.O11 stream caller: after the request is sent the borrow is 'stream opened' and no earlier session vouches for the new call",
+    targets=["vgi_rpc/rpc/_client.py::_RpcProxy._make_stream_caller"],
+    replay=replay_second_stream,
+    min_obligations=6,
+)
+def stream_caller(S):
+    earlier = ["none", "closed_session"][S.choose(2)]
+    outcome = ["send_fails", "header_read_interrupted", "session_built"][S.choose(3)]
+    with_header = outcome == "header_read_interrupted" or S.choose(2) == 1
+    S.inputs.update({"earlier_stream": earlier, "outcome": outcome, "header": with_header})
+    old_session = SObj(None, kind="Session", _closed=True) if earlier == "closed_session" else None
+    transport = SObj(None, kind="PooledTransport", _stream_opened=(earlier != "none"), _last_stream_session=old_session, writer=SObj(None, kind="W"), reader=SObj(None, kind="R"))
+    info = SObj(None, kind="Info", name="m", header_type=(SObj(None, kind="HeaderType") if with_header else None))
+    proxy = SObj(_client._RpcProxy, _transport=transport, _on_log=None, _external_config=None, _ipc_validation="full", _shm=None, _protocol_version=None)
+
+    def send(S, writer, info_, kwargs, shm=None, protocol_version=None):
+        S.event("request_sent")
+        if outcome == "send_fails":
+            raise PyRaise(SExc(BrokenPipeError, ("peer gone",)))
+
+    def read_header(S, reader, header_type, ipc_validation, on_log=None, ext_cfg=None):
+        if outcome == "header_read_interrupted":
+            raise PyRaise(SExc(ClientSideError, ("on_log raised",)))
+        return SObj(None, kind="Header")
+
+    new_session = SObj(None, kind="Session", _closed=False)
+    S.handlers["_send_request"] = send
+    S.handlers["_read_stream_header"] = read_header
+    S.handlers[_client.StreamSession] = lambda S, *a, **k: new_session
+    S.handlers["Logger.isEnabledFor"] = lambda S, *a: False
+    made = S.outcome(_client._RpcProxy._make_stream_caller, proxy, info)
+    S.oblige("O11.caller_is_built", made.returned, kind="raises")
+    if not made.returned:
+        return
+    out = S.outcome(made.value)
+    sent = bool(S.events("request_sent"))
+    opened, last = transport.fields["_stream_opened"], transport.fields["_last_stream_session"]
+    if outcome == "session_built":
+        S.oblige("O11.returns_the_new_session_and_remembers_it", out.returned and out.value is new_session and last is new_session and opened is True, kind="post")
+    else:
+        S.oblige("O11.an_interrupted_stream_call_raises", out.raised, kind="raises")
+        if sent and outcome == "header_read_interrupted":
+            # what close() (O7) will see: stream opened, and no session - least of all an earlier, closed one
+            S.oblige("O11.interrupted_after_the_request_was_sent_leaves_the_borrow_marked_abandoned", opened is True and last is None, kind="post", witness=f"earlier={earlier}")
+    S.canary("O11.canary.never_builds_a_session", SBool(z3.BoolVal(last is not new_session)))
